@@ -68,6 +68,7 @@ func scribStrings(b []string) int {
 
 var otherItems = []secs2.Item{secs2.A("MUTATED"), secs2.U1(250, 251), secs2.L(secs2.B(0xAA))}
 
+// scribItems replaces every entry with nil / other items alternately (inputs).
 func scribItems(b []secs2.Item) int {
 	b = b[:cap(b)]
 	for i := range b {
@@ -77,6 +78,21 @@ func scribItems(b []secs2.Item) int {
 			b[i] = otherItems[(i/2)%len(otherItems)]
 		}
 	}
+	return len(b)
+}
+
+// scribItemsOther replaces every entry with another (non-nil) item.
+func scribItemsOther(b []secs2.Item) int {
+	b = b[:cap(b)]
+	for i := range b {
+		b[i] = otherItems[i%len(otherItems)]
+	}
+	return len(b)
+}
+
+func scribItemsNil(b []secs2.Item) int {
+	b = b[:cap(b)]
+	clear(b)
 	return len(b)
 }
 
@@ -133,7 +149,8 @@ func appendTight(f func([]byte) []byte) int {
 }
 
 var itemOuts = []outTarget{
-	{"ToList", func(it secs2.Item) int { l, _ := it.ToList(); return scribItems(l) }},
+	{"ToList", func(it secs2.Item) int { l, _ := it.ToList(); return scribItemsOther(l) }},
+	{"ToList(nil)", func(it secs2.Item) int { l, _ := it.ToList(); return scribItemsNil(l) }},
 	{"ToBinary", func(it secs2.Item) int { b, _ := it.ToBinary(); return scribBytes(b) }},
 	{"ToBoolean", func(it secs2.Item) int { b, _ := it.ToBoolean(); return scribBools(b) }},
 	{"ToInt", func(it secs2.Item) int { b, _ := it.ToInt(); return scribNum(b) }},
